@@ -121,6 +121,32 @@ def gen_path_cases(tier, seed):
         s.timeout()
         s.add("stop")
         cases.append(("l%d" % i, s.text(), {"compare": False}))
+    # the DESTINATION of the version (store root / relative path / version) exactly at the platform's path limit, and one
+    # and two bytes to either side: 4096 bytes is the longest path the kernel takes
+    store_len = len(R + "/k/store")
+    for j, dest_len in enumerate([4093, 4094, 4095, 4096, 4097, 4098]):
+        s = wc.Script(log=False)
+        wc.setup_world(s, wc.base_cfg(deb=0, included=[WATCH]))
+        rel_len = dest_len - store_len - 1 - 1 - len("v%d" % wc.CLOCK0)
+        comps = []
+        left = rel_len
+        while left > 0:
+            n = min(200, left)
+            if 0 < left - n - 1 < 2:
+                n -= 2
+            comps.append("p" * n)
+            left -= n + 1
+        rel = "/".join(comps)
+        if len(rel) != rel_len:
+            rel = rel + "q" * (rel_len - len(rel)) if len(rel) < rel_len else rel[:rel_len]
+        p = WATCH + "/" + rel
+        if len(p) < 4096:
+            s.put(p, "x")
+        s.start()
+        s.write(3, p)
+        s.timeout()
+        s.add("stop")
+        cases.append(("lx%d" % j, s.text(), {"compare": False}))
     return cases
 
 
